@@ -82,6 +82,61 @@ func check(c Case, o *vf.Obs) error {
 	return nil
 }
 
+// genStructured: instances whose constraints really conflict (pigeonhole with at-most-one rows, dense
+// systems of tight constraints), so that propagation over several levels, conflicts and learning happen
+// on cardinality / PB constraints.
+func genStructured(front string) func(t *rapid.T) Case {
+	return func(t *rapid.T) Case {
+		c := Case{Front: front}
+		if rapid.Bool().Draw(t, "php") {
+			holes := rapid.IntRange(2, 3).Draw(t, "holes")
+			pigeons := holes + 1
+			if gen.Chance(t, 1, 3, "drop") {
+				pigeons = holes
+			}
+			n := pigeons * holes
+			perm := rapid.Permutation(seqInts(1, n)).Draw(t, "perm")
+			v := func(p, h int) int { return perm[p*holes+h] }
+			for p := 0; p < pigeons; p++ {
+				var ls []int
+				for h := 0; h < holes; h++ {
+					ls = append(ls, v(p, h))
+				}
+				c.Constrs = append(c.Constrs, gen.PC{Kind: "clause", Lits: ls})
+			}
+			for h := 0; h < holes; h++ {
+				var ls []int
+				for p := 0; p < pigeons; p++ {
+					ls = append(ls, v(p, h))
+				}
+				if front == "card" {
+					c.Constrs = append(c.Constrs, gen.PC{Kind: "atmost1", Lits: ls})
+				} else {
+					c.Constrs = append(c.Constrs, gen.PC{Kind: "atmost", Lits: ls, K: 1})
+				}
+			}
+			c.Constrs = rapid.Permutation(c.Constrs).Draw(t, "order")
+		} else {
+			n := gen.Uniform(t, 6, 10, "n")
+			for i, m := 0, gen.Uniform(t, 6, 14, "m"); i < m; i++ {
+				c.Constrs = append(c.Constrs, gen.PBConstr(t, n, gen.PBOpts{MaxArity: 5, Card: front == "card"}, false))
+			}
+		}
+		if gen.Chance(t, 1, 2, "nbmax") {
+			c.NbMax = rapid.IntRange(2, 12).Draw(t, "limit")
+		}
+		return c
+	}
+}
+
+func seqInts(lo, hi int) []int {
+	var s []int
+	for i := lo; i <= hi; i++ {
+		s = append(s, i)
+	}
+	return s
+}
+
 func genCase(front string) func(t *rapid.T) Case {
 	return func(t *rapid.T) Case {
 		_, ps := gen.PBConstrs(t, gen.PBOpts{MinN: 1, MaxN: 10, MaxConstrs: 8, MaxArity: 8, Card: front == "card"})
@@ -100,6 +155,12 @@ func init() {
 			Rule: "ParsePBConstrs via GtEq/LtEq/Eq/AtLeast/AtMost/PropClause; " + rule},
 		vf.Sub[Case]{Name: "card-front", Quick: 20000, Thorough: 250000, Gen: genCase("card"), Check: check, Floor: 0.2,
 			Rule: "ParseCardConstrs via CardConstr/AtLeast1/AtMost1/Exactly1; " + rule},
+		vf.Sub[Case]{Name: "pb-structured", Quick: 4000, Thorough: 50000, Gen: genStructured("pb"), Check: check, Floor: 0.5,
+			Classes: map[string]float64{"conflicts>0": 0.3},
+			Rule: "ParsePBConstrs: pigeonhole with at-most-one rows (variables renamed, constraints shuffled) and dense systems of 6..14 loose-degree constraints over 6..10 variables, tiny learned-clause limit in half of the cases; " + rule},
+		vf.Sub[Case]{Name: "card-structured", Quick: 4000, Thorough: 50000, Gen: genStructured("card"), Check: check, Floor: 0.5,
+			Classes: map[string]float64{"conflicts>0": 0.3},
+			Rule: "ParseCardConstrs: the same structured families; " + rule},
 	)
 }
 
